@@ -1,6 +1,8 @@
 package checks
 
 import (
+	"time"
+	"context"
 	"bytes"
 	"os"
 	"os/exec"
@@ -233,11 +235,11 @@ func evalC16(c *Ctx, cs *Case) {
 			if massive && r.Chance(1, 2) {
 				continue
 			}
-			for via := 0; via < 3; via++ {
+			for via := 0; via < 4; via++ {
 				// the document comes from stdin, from a regular file, or from --file naming
 				// something that is neither a regular file nor a directory (/dev/stdin fed by a pipe)
 				viaFile := via == 1
-				if format != "" && via != r.Intn(3) {
+				if format != "" && via != r.Intn(4) {
 					continue
 				}
 				var opts []gtree.Option
@@ -263,6 +265,11 @@ func evalC16(c *Ctx, cs *Case) {
 					args = append(args, "--file", "/dev/stdin")
 					stdin = doc
 					c.Count("file_flag_names_a_pipe", 1)
+				} else if via == 3 {
+					// "-" and the empty string both mean standard input
+					args = append(args, [][]string{{"--file", "-"}, {"-f", "-"}, {"--file="}}[r.Intn(3)]...)
+					stdin = doc
+					c.Count("file_flag_means_stdin", 1)
 				} else {
 					stdin = doc
 				}
@@ -283,6 +290,18 @@ func evalC16(c *Ctx, cs *Case) {
 				}
 				judge(strings.Join(args, " "), res, lib.Err == nil && lib.Panic == nil, libOut, compare, blocks, map[string]any{"lib_err": errStr(lib.Err)})
 			}
+		}
+	}
+	// --massive together with --massive-timeout: the timeout must stay in force whatever the order
+	// of the two flags (an expired deadline fails the call in the library, so it must in the CLI)
+	if len(bytes.TrimSpace(doc)) > 0 {
+		ctx, cancel := context.WithTimeout(context.Background(), time.Nanosecond)
+		lib := OutputMD(string(doc), gtree.WithMassive(ctx))
+		cancel()
+		for _, args := range [][]string{{"output", "--massive", "--massive-timeout", "1ns"}, {"output", "--mt", "1ns", "-m"}} {
+			res := runCLI(c, j.Target, doc, "", args...)
+			c.Count("massive_with_expired_timeout_runs", 1)
+			judge(strings.Join(args, " "), res, lib.Err == nil && lib.Panic == nil, nil, false, nil, map[string]any{"lib_err": errStr(lib.Err)})
 		}
 	}
 	// failing stdout
@@ -345,17 +364,21 @@ func evalC16(c *Ctx, cs *Case) {
 			mstdin := doc
 			viaFile := r.Intn(2) == 0
 			viaPipeFile := !viaFile && r.Intn(3) == 0
+			viaDash := !viaFile && !viaPipeFile && r.Intn(2) == 0
 			if viaFile {
 				args = append(args, "--file", docFile)
 				mstdin = nil
 			} else if viaPipeFile {
 				args = append(args, "--file", "/dev/stdin")
 				c.Count("file_flag_names_a_pipe", 1)
+			} else if viaDash {
+				args = append(args, "--file", "-")
+				c.Count("file_flag_means_stdin", 1)
 			}
 			before := jc.Snap()
 			res := runCLI(c, cwd, mstdin, "", args...)
 			after := jc.Snap()
-			if viaFile || viaPipeFile {
+			if viaFile || viaPipeFile || viaDash {
 				args = args[:len(args)-2]
 			}
 			// library: the CLI's dry-run is Output + WithDryRun on color.Output; the real run is MkdirFromMarkdown
@@ -403,10 +426,13 @@ func evalC16(c *Ctx, cs *Case) {
 					}
 					vlib := verifyCall(verifyRoutes[0], string(doc), nil, fsOpts(jc.Target, nil, false, false, false, strict))
 					vstdin := doc
-					switch r.Intn(3) {
+					switch r.Intn(4) {
 					case 0:
 						vargs = append([]string{vargs[0], "-f", docFile}, vargs[1:]...)
 						vstdin = nil
+					case 3:
+						vargs = append([]string{vargs[0], "-f", "-"}, vargs[1:]...)
+						c.Count("file_flag_means_stdin", 1)
 					case 1:
 						vargs = append([]string{vargs[0], "-f", "/dev/stdin"}, vargs[1:]...)
 						c.Count("file_flag_names_a_pipe", 1)
